@@ -60,7 +60,16 @@ THandle == /\ IsEvent("handle") /\ Same
                 /\ i <= ninst /\ inst[i].inbox # <<>>
                 /\ req[Head(inst[i].inbox)].kind = Rec[l].kind /\ req[Head(inst[i].inbox)].tag = Rec[l].tag
                 /\ Handle(i)
-TIdle == IsEvent("idle_break") /\ Rec[l].inst <= ninst /\ IdleDecide(Rec[l].inst) /\ Same
+\* The actor answers waiting requests when its lookup yields or ends; that step has no event of its own, so
+\* it may have happened just before the idle decision (if the requests were in fact dropped, their replies
+\* show up as "dropped" and NothingLost fails).
+FinishThenIdle(i) ==
+  /\ inst[i].phase = "running" /\ inst[i].inbox = <<>> /\ inst[i].waiting # {}
+  /\ answered' = answered \cup inst[i].waiting
+  /\ inst' = [inst EXCEPT ![i].waiting = {}, ![i].phase = "deciding"]
+  /\ UNCHANGED <<sender, ninst, joinable, sapc, tspc, req, nreq, handled, accepted>>
+TIdle == /\ IsEvent("idle_break") /\ Rec[l].inst <= ninst /\ Same
+         /\ IdleDecide(Rec[l].inst) \/ FinishThenIdle(Rec[l].inst)
 TClosed == /\ IsEvent("closed") /\ Rec[l].inst <= ninst /\ Len(inst[Rec[l].inst].inbox) = Rec[l].n
            /\ Close(Rec[l].inst) /\ Same
 TTsLookup == /\ IsEvent("ts_lookup") /\ Same
